@@ -6,3 +6,5 @@ open SemantivaModel.Trace
 #print axioms SemantivaModel.Tie.C10.spec_not_mutated
 #print axioms SemantivaModel.Tie.C10.C10_observational
 #print axioms SemantivaModel.Tie.C10.C10_reuse
+#print axioms reuse_reproducible_iff
+#print axioms reuse_differs_without_copy
